@@ -393,8 +393,11 @@ class DurableContext(DurableContextProtocol):
             ),
             config=config,
         )
-        result: R = executor.process()
-        self.state.track_replay(operation_id=operation_id)
+        try:
+            result: R = executor.process()
+        finally:
+            # also when a replayed operation re-raises its recorded error: it has been visited
+            self.state.track_replay(operation_id=operation_id)
         return result
 
     def map(
@@ -427,20 +430,23 @@ class DurableContext(DurableContextProtocol):
                 operation_identifier=operation_identifier,
             )
 
-        result: BatchResult[R] = child_handler(
-            func=map_in_child_context,
-            state=self.state,
-            operation_identifier=operation_identifier,
-            config=ChildConfig(
-                sub_type=OperationSubType.MAP,
-                serdes=getattr(config, "serdes", None),
-                # child_handler should only know the serdes of the parent serdes,
-                # the item serdes will be passed when we are actually executing
-                # the branch within its own child_handler.
-                item_serdes=None,
-            ),
-        )
-        self.state.track_replay(operation_id=operation_id)
+        try:
+            result: BatchResult[R] = child_handler(
+                func=map_in_child_context,
+                state=self.state,
+                operation_identifier=operation_identifier,
+                config=ChildConfig(
+                    sub_type=OperationSubType.MAP,
+                    serdes=getattr(config, "serdes", None),
+                    # child_handler should only know the serdes of the parent serdes,
+                    # the item serdes will be passed when we are actually executing
+                    # the branch within its own child_handler.
+                    item_serdes=None,
+                ),
+            )
+        finally:
+            # also when the replayed operation re-raises its recorded error: it has been visited
+            self.state.track_replay(operation_id=operation_id)
         return result
 
     def parallel(
@@ -470,20 +476,23 @@ class DurableContext(DurableContextProtocol):
                 operation_identifier=operation_identifier,
             )
 
-        result: BatchResult[T] = child_handler(
-            func=parallel_in_child_context,
-            state=self.state,
-            operation_identifier=operation_identifier,
-            config=ChildConfig(
-                sub_type=OperationSubType.PARALLEL,
-                serdes=getattr(config, "serdes", None),
-                # child_handler should only know the serdes of the parent serdes,
-                # the item serdes will be passed when we are actually executing
-                # the branch within its own child_handler.
-                item_serdes=None,
-            ),
-        )
-        self.state.track_replay(operation_id=operation_id)
+        try:
+            result: BatchResult[T] = child_handler(
+                func=parallel_in_child_context,
+                state=self.state,
+                operation_identifier=operation_identifier,
+                config=ChildConfig(
+                    sub_type=OperationSubType.PARALLEL,
+                    serdes=getattr(config, "serdes", None),
+                    # child_handler should only know the serdes of the parent serdes,
+                    # the item serdes will be passed when we are actually executing
+                    # the branch within its own child_handler.
+                    item_serdes=None,
+                ),
+            )
+        finally:
+            # also when the replayed operation re-raises its recorded error: it has been visited
+            self.state.track_replay(operation_id=operation_id)
         return result
 
     def run_in_child_context(
@@ -511,15 +520,18 @@ class DurableContext(DurableContextProtocol):
         def callable_with_child_context():
             return func(self.create_child_context(parent_id=operation_id))
 
-        result: T = child_handler(
-            func=callable_with_child_context,
-            state=self.state,
-            operation_identifier=OperationIdentifier(
-                operation_id=operation_id, parent_id=self._parent_id, name=step_name
-            ),
-            config=config,
-        )
-        self.state.track_replay(operation_id=operation_id)
+        try:
+            result: T = child_handler(
+                func=callable_with_child_context,
+                state=self.state,
+                operation_identifier=OperationIdentifier(
+                    operation_id=operation_id, parent_id=self._parent_id, name=step_name
+                ),
+                config=config,
+            )
+        finally:
+            # also when the replayed operation re-raises its recorded error: it has been visited
+            self.state.track_replay(operation_id=operation_id)
         return result
 
     def step(
@@ -544,8 +556,11 @@ class DurableContext(DurableContextProtocol):
             ),
             context_logger=self.logger,
         )
-        result: T = executor.process()
-        self.state.track_replay(operation_id=operation_id)
+        try:
+            result: T = executor.process()
+        finally:
+            # also when a replayed operation re-raises its recorded error: it has been visited
+            self.state.track_replay(operation_id=operation_id)
         return result
 
     def wait(self, duration: Duration, name: str | None = None) -> None:
@@ -627,8 +642,11 @@ class DurableContext(DurableContextProtocol):
                 context_logger=self.logger,
             )
         )
-        result: T = executor.process()
-        self.state.track_replay(operation_id=operation_id)
+        try:
+            result: T = executor.process()
+        finally:
+            # also when a replayed operation re-raises its recorded error: it has been visited
+            self.state.track_replay(operation_id=operation_id)
         return result
 
 
